@@ -650,7 +650,8 @@ def run(ctx):
                 "re-loaded; distinct non-trivial = accepted configurations by (type, ports, file type, format list, z0 mode, precision)")
     ok, res = ctx.coq_obligations(["Files/NumFmtModel.v", "Files/NumFmtProofs.v", "Files/NpdScan.v", "Files/NpdScanProofs.v",
                                    "Files/SaveModel.v", "Files/SaveProofs.v", "Files/SaveEmit.v", "Files/SaveEmitTie.v",
-                                   "Files/SaveTsLemmas.v", "Files/SaveEmitProofs.v", "Files/SaveNpdProofs.v", "Files/SaveEmitExamples.v", "Properties_C06.v"])
+                                   "Files/SaveTsLemmas.v", "Files/SaveEmitProofs.v", "Files/SaveNpdProofs.v", "Files/SaveAllProofs.v", "Files/SaveNormIdentity.v",
+                                   "Files/SaveEmitExamples.v", "Properties_C06.v"])
     broken = []
     if not ok:
         broken.append("Coq development of C06 does not build: " + getattr(ctx, "_last_coq_log", "")[-400:])
